@@ -122,6 +122,10 @@ type Consumer struct {
 	// Lazy: the consumer asks for the Status() channel only when it starts receiving (a consumer
 	// that is absent until Close has then never touched the ProgressWriter before Close began).
 	Lazy bool `json:"lazy,omitempty"`
+	// DwellMs: once its start signal has fired the consumer stays away for that long before its first
+	// receive (exposure only: a Close that gives up waiting for its receiver after some time shows
+	// only when the receiver is that late; nothing is judged by the clock)
+	DwellMs int `json:"dwell_ms,omitempty"`
 }
 
 // Case is one replayable scenario.
@@ -488,6 +492,9 @@ func consumerLoop(s *scen) {
 	s.cgid.Store(goid())
 	s.cstate.Store(csWaitStart)
 	<-s.startSig
+	if d := s.cs.Cons.DwellMs; d > 0 {
+		time.Sleep(time.Duration(d) * time.Millisecond)
+	}
 	s.cstate.Store(csRecv)
 	ch, y := s.ch, s.cs.Cons.Yields
 	if s.cs.Cons.Lazy {
@@ -1350,6 +1357,12 @@ type shardArgs struct {
 	Deep    bool `json:"deep,omitempty"`    // deep scenarios (deep.go), thorough only
 	Callers bool `json:"callers,omitempty"` // callers scenarios (callers.go)
 	XL      bool `json:"xl,omitempty"`      // thorough: every 6th long scenario has 200000..500000 writes
+	// DeepProf forces the profile of the deep scenarios (the quick tier runs a few "pow2" and "boundary"
+	// ones: single writes of up to 64 MiB through short / failing writers, totals across 2^31 and 2^32)
+	DeepProf string `json:"deep_prof,omitempty"`
+	// Dwell > 0: ordinary scenarios whose consumer, absent until Close (or late), starts receiving only
+	// Dwell ms after it was let go
+	Dwell int `json:"dwell,omitempty"`
 }
 
 var procsCycle = []int{1, 2, 4, 16}
@@ -1424,6 +1437,21 @@ func (mon) Plan(prop, tier string, seed int64) []drv.Shard {
 		a, _ := json.Marshal(shardArgs{Part: 9000 + p, Count: callRacePer, Workers: 1, Callers: true})
 		out = append(out, drv.Shard{Name: fmt.Sprintf("callers-race-%d-p%d-w1", p, procs), Args: a, Secs: secs, Race: true,
 			Env: []string{fmt.Sprintf("GOMAXPROCS=%d", procs)}})
+	}
+	if !thorough {
+		for p, prof := range []string{"pow2", "boundary", "pow2"} {
+			a, _ := json.Marshal(shardArgs{Part: 6500 + p, Count: []int{24, 5, 24}[p], Workers: 1, Deep: true, DeepProf: prof})
+			out = append(out, drv.Shard{Name: fmt.Sprintf("deepq-%d-%s-p%d", p, prof, []int{4, 2, 1}[p]), Args: a, Secs: secs,
+				Env: []string{fmt.Sprintf("GOMAXPROCS=%d", []int{4, 2, 1}[p])}})
+		}
+	}
+	dwells := []int{1300, 1300}
+	if thorough {
+		dwells = []int{1300, 1300, 3100, 3100, 11000}
+	}
+	for p, d := range dwells {
+		a, _ := json.Marshal(shardArgs{Part: 9500 + p, Count: 8, Workers: 4, Dwell: d})
+		out = append(out, drv.Shard{Name: fmt.Sprintf("dwell-%d-%dms", p, d), Args: a, Secs: secs, Env: []string{"GOMAXPROCS=4"}})
 	}
 	if thorough {
 		// deep scenarios (deep.go): GOMAXPROCS 1/2/4/16, alone and 4 at once, plain and -race
@@ -1528,7 +1556,14 @@ func (mn mon) Run(sh drv.Shard, c *drv.Ctx) {
 						cs.LongN = 200000 + r.Intn(300001)
 					}
 				} else if a.Deep {
-					cs = genDeep(r)
+					cs = genDeepProf(r, a.DeepProf)
+				} else if a.Dwell > 0 {
+					cs = genCase(r)
+					n := len(cs.Ops)
+					cs.Cons = Consumer{Kind: "absent", StartAt: n, PauseAt: -1, Lazy: i%2 == 0, DwellMs: a.Dwell}
+					if i%3 == 2 && n > 1 {
+						cs.Cons.Kind, cs.Cons.StartAt = "late", n-1
+					}
 				} else if a.Callers {
 					cs = genCallers(r)
 				} else {
